@@ -1254,7 +1254,7 @@ func init() {
 		}
 		c05conc(tier, seed, out)
 		if os.Getenv("VERIF_SHARD") == "" {
-			n := 12
+			n := 20
 			if tier != "quick" {
 				n = 200
 			}
